@@ -538,9 +538,9 @@ func c02Await(st *c02State, ci int, done chan struct{}) bool {
 			last, idle = p, 0
 		} else if idle++; idle >= 200 {
 			return false
-		} else if idle >= 8 {
+		} else if idle >= 40 {
 			// the hooks saw this cascade post its finished message and nothing has moved for
-			// 400 ms: the notification did not reach the waiter
+			// 2 s: the notification did not reach the waiter
 			st.mu.Lock()
 			posted := st.posted[c02RootOfCasc(st, ci)] > 0
 			st.mu.Unlock()
